@@ -705,3 +705,518 @@ Proof.
     rewrite Hp2. rewrite <- (with_groups_equiv _ _ _ Hq). rewrite <- filter_with_groups.
     rewrite forallb_filter_self. reflexivity.
 Qed.
+
+(* ------------------------------------------------------------------ exactness of the settled table *)
+
+Lemma fst_inj_NoDup : forall (s : list mrow) i k k', NoDup (map fst s) -> In (i, k) s -> In (i, k') s -> k = k'.
+Proof.
+  induction s as [|r t IH]; intros i k k' Hnd H1 H2; simpl in *; [contradiction|].
+  inversion Hnd as [|x l Hx Hl]; subst.
+  destruct H1 as [->|H1], H2 as [E|H2].
+  - inversion E. reflexivity.
+  - exfalso. apply Hx. simpl. apply in_map_iff. exists (i, k'). split; [reflexivity|exact H2].
+  - subst r. exfalso. apply Hx. simpl. apply in_map_iff. exists (i, k). split; [reflexivity|exact H1].
+  - eapply IH; eassumption.
+Qed.
+
+Lemma NoDup_map_inj_on : forall {A B C} (f : A -> B) (g : A -> C) l,
+  NoDup (map f l) -> (forall x y, In x l -> In y l -> g x = g y -> f x = f y) -> NoDup (map g l).
+Proof.
+  intros A B C f g l. induction l as [|a t IH]; intros Hnd Hinj; simpl; [constructor|].
+  inversion Hnd as [|x l' Hx Hl]; subst. constructor.
+  - intros Hin. apply in_map_iff in Hin. destruct Hin as [b [Hgb Hb]].
+    apply Hx. apply in_map_iff. exists b. split; [|exact Hb].
+    symmetry. apply Hinj; [left; reflexivity|right; exact Hb|symmetry; exact Hgb].
+  - apply IH; [exact Hl|]. intros x y Hx' Hy'. apply Hinj; right; assumption.
+Qed.
+
+Lemma filter_map_fst_Forall2 : forall {A B} (R : A -> B -> Prop) (fa : A -> Z) (fb : B -> Z) p q l1 l2,
+  Forall2 R l1 l2 ->
+  (forall a b, In a l1 -> In b l2 -> R a b -> fa a = fb b /\ p a = q b) ->
+  map fa (filter p l1) = map fb (filter q l2).
+Proof.
+  intros A B R fa fb p q l1 l2 H. induction H as [|a b l1 l2 Hab _ IH]; intros Hpq; simpl; [reflexivity|].
+  destruct (Hpq a b (or_introl eq_refl) (or_introl eq_refl) Hab) as [Hf Hb]. rewrite Hb.
+  assert (IH' : map fa (filter p l1) = map fb (filter q l2)).
+  { apply IH. intros a' b' Ha' Hb' Hr. apply Hpq; [right; exact Ha'|right; exact Hb'|exact Hr]. }
+  destruct (q b); simpl; rewrite IH'; [rewrite Hf|]; reflexivity.
+Qed.
+
+Lemma NoDup_map_filter : forall {A B} (f : A -> B) p l, NoDup (map f l) -> NoDup (map f (filter p l)).
+Proof.
+  intros A B f p l. induction l as [|a t IH]; intros H; simpl; [constructor|].
+  inversion H as [|x l' Hx Hl]; subst. destruct (p a); simpl; [|apply IH; exact Hl].
+  constructor; [|apply IH; exact Hl]. intros Hin. apply Hx.
+  apply in_map_iff in Hin. destruct Hin as [b [Hb Hin]]. apply filter_In in Hin.
+  apply in_map_iff. exists b. tauto.
+Qed.
+
+Section Exact.
+  Variables (kinds : list kind) (prev : list (Z * list Z)) (src : list srow) (summ s1 : list mrow)
+            (hs : list (Z * list Z)).
+  Hypothesis Hids : NoDup (map fst summ).
+  Hypothesis Hp : pass kinds prev src summ = (s1, hs).
+  Hypothesis Hgood : no_raise kinds src.
+
+  Let out := filter nonempty_group (with_groups s1 hs).
+
+  Lemma ex_ids1 : NoDup (map fst s1).
+  Proof. eapply pass_ids_NoDup; eassumption. Qed.
+
+  Lemma ex_rel : Forall2 (hrel kinds prev s1) src hs.
+  Proof. destruct (pass_spec _ _ _ _ _ _ Hp) as [a [_ [H _]]]. exact H. Qed.
+
+  Lemma ex_out_In : forall i k g,
+    In (i, k, g) out <-> In (i, k) s1 /\ keepb hs i = true /\ g = group_of hs i.
+  Proof.
+    intros i k g. unfold out. rewrite filter_with_groups. unfold with_groups. rewrite in_map_iff. split.
+    - intros [[i' k'] [Heq Hin]]. simpl in Heq. inversion Heq; subst. apply filter_In in Hin. simpl in Hin. tauto.
+    - intros [Hin [Hk ->]]. exists (i, k). split; [reflexivity|]. apply filter_In. simpl. tauto.
+  Qed.
+
+  (* an id in an entry is what one of the record's keys finds *)
+  Lemma ex_entry_key : forall rid h i, In (rid, h) hs -> In i h ->
+    exists r k, In r src /\ fst r = rid /\ In k (keys_of kinds (snd r)) /\ first_match s1 k = Some i.
+  Proof.
+    intros rid h i Hin Hi. destruct (Forall2_In_r _ _ _ _ ex_rel Hin) as [r [Hr [Hf Hs]]].
+    simpl in Hf, Hs. unfold hspec in Hs. pose proof (Hgood r Hr) as Hg.
+    destruct (row_keys kinds (snd r)) as [ks|] eqn:Ek; [|congruence].
+    destruct Hs as [_ H2]. destruct (H2 i Hi) as [k [Hk Hfm]].
+    exists r, k. split; [exact Hr|]. split; [symmetry; exact Hf|]. unfold keys_of. rewrite Ek.
+    split; assumption.
+  Qed.
+
+  Lemma ex_key_entry : forall r k, In r src -> In k (keys_of kinds (snd r)) ->
+    exists i h, first_match s1 k = Some i /\ In (fst r, h) hs /\ In i h.
+  Proof.
+    intros r k Hr Hk. destruct (Forall2_In_l _ _ _ _ ex_rel Hr) as [rh [Hrh [Hf Hs]]].
+    unfold hspec in Hs. unfold keys_of in Hk. destruct (row_keys kinds (snd r)) as [ks|]; [|contradiction].
+    destruct Hs as [H1 _]. destruct (H1 k Hk) as [i [Hi Hfm]].
+    exists i, (snd rh). split; [exact Hfm|]. split; [|exact Hi]. rewrite <- Hf. destruct rh; exact Hrh.
+  Qed.
+
+  (* a surviving row is the row its key finds *)
+  Lemma ex_out_first : forall i k g, In (i, k, g) out -> first_match s1 k = Some i.
+  Proof.
+    intros i k g Hin. apply ex_out_In in Hin. destruct Hin as [Hs1 [Hk _]].
+    unfold keepb in Hk. destruct (group_of hs i) as [|rid t] eqn:Eg; [discriminate|].
+    assert (Hrid : In rid (group_of hs i)) by (rewrite Eg; left; reflexivity).
+    apply group_of_In in Hrid. destruct Hrid as [h [Hh Hi]].
+    destruct (ex_entry_key _ _ _ Hh Hi) as [r [k' [_ [_ [_ Hfm]]]]].
+    pose proof (fm_some_in _ _ _ Hfm) as Hin'.
+    rewrite (fst_inj_NoDup s1 i k k' ex_ids1 Hs1 Hin'). exact Hfm.
+  Qed.
+
+  Lemma ex_keys : forall k,
+    In k (map okey out) <-> exists r, In r src /\ In k (keys_of kinds (snd r)).
+  Proof.
+    intros k. rewrite in_map_iff. split.
+    - intros [[[i k'] g] [Hk Hin]]. unfold okey in Hk. simpl in Hk. subst k'.
+      pose proof (ex_out_first _ _ _ Hin) as Hfm.
+      apply ex_out_In in Hin. destruct Hin as [Hs1 [Hkeep _]].
+      unfold keepb in Hkeep. destruct (group_of hs i) as [|rid t] eqn:Eg; [discriminate|].
+      assert (Hrid : In rid (group_of hs i)) by (rewrite Eg; left; reflexivity).
+      apply group_of_In in Hrid. destruct Hrid as [h [Hh Hi]].
+      destruct (ex_entry_key _ _ _ Hh Hi) as [r [k' [Hr [_ [Hk' Hfm']]]]].
+      exists r. split; [exact Hr|].
+      pose proof (fm_some_in _ _ _ Hfm') as Hin'.
+      rewrite (fst_inj_NoDup s1 i k k' ex_ids1 Hs1 Hin'). exact Hk'.
+    - intros [r [Hr Hk]]. destruct (ex_key_entry r k Hr Hk) as [i [h [Hfm [Hh Hi]]]].
+      exists (i, k, group_of hs i). split; [reflexivity|]. apply ex_out_In.
+      split; [apply fm_some_in; exact Hfm|]. split; [|reflexivity].
+      eapply keepb_true; eassumption.
+  Qed.
+
+  Lemma ex_keys_NoDup : NoDup (map okey out).
+  Proof.
+    apply (NoDup_map_inj_on oid okey).
+    - unfold out. rewrite filter_with_groups. unfold with_groups. rewrite map_map. simpl.
+      change (fun x : Z * key => oid (fst x, snd x, group_of hs (fst x))) with (fun x : Z * key => fst x).
+      apply NoDup_map_filter. exact ex_ids1.
+    - intros [[i k] g] [[j k'] g'] Hx Hy Hk. unfold okey in Hk. simpl in Hk. subst k'. unfold oid. simpl.
+      pose proof (ex_out_first _ _ _ Hx) as H1. pose proof (ex_out_first _ _ _ Hy) as H2. congruence.
+  Qed.
+
+  Lemma ex_groups : forall i k g, In (i, k, g) out -> g = rows_with_key kinds src k /\ g <> [].
+  Proof.
+    intros i k g Hin. pose proof (ex_out_first _ _ _ Hin) as Hfm.
+    apply ex_out_In in Hin. destruct Hin as [Hs1 [Hkeep ->]]. split.
+    - unfold rows_with_key, group_of. symmetry.
+      apply (filter_map_fst_Forall2 (hrel kinds prev s1)); [exact ex_rel|].
+      intros r rh Hr Hrh [Hf Hs]. split; [symmetry; exact Hf|].
+      unfold hspec in Hs. pose proof (Hgood r Hr) as Hg. unfold keys_of.
+      destruct (row_keys kinds (snd r)) as [ks|]; [|congruence]. destruct Hs as [H1 H2].
+      destruct (mem_key k ks) eqn:Ek, (mem_z i (snd rh)) eqn:Ez; try reflexivity.
+      + apply mem_key_In in Ek. destruct (H1 k Ek) as [j [Hj Hfj]].
+        assert (j = i) by congruence. subst j. apply mem_z_In in Hj. congruence.
+      + apply mem_z_In in Ez. destruct (H2 i Ez) as [k' [Hk' Hfk']].
+        pose proof (fm_some_in _ _ _ Hfk') as Hin'.
+        rewrite <- (fst_inj_NoDup s1 i k k' ex_ids1 Hs1 Hin') in Hk'.
+        apply mem_key_In in Hk'. congruence.
+    - unfold keepb in Hkeep. destruct (group_of hs i); [discriminate|discriminate].
+  Qed.
+End Exact.
+
+(* ------------------------------------------------------------------ the incremental engine = full re-evaluation *)
+
+Lemma hequiv_refl : forall l, Forall2 hequiv l l.
+Proof. induction l as [|a t IH]; constructor; [split; [reflexivity|tauto]|exact IH]. Qed.
+
+Lemma hequiv_sym : forall l m, Forall2 hequiv l m -> Forall2 hequiv m l.
+Proof.
+  intros l m H. induction H as [|a b l m [Hf Hi] _ IH]; constructor; [|exact IH].
+  split; [symmetry; exact Hf|]. intros i. symmetry. apply Hi.
+Qed.
+
+Lemma hequiv_trans : forall l m n, Forall2 hequiv l m -> Forall2 hequiv m n -> Forall2 hequiv l n.
+Proof.
+  intros l m n H. revert n. induction H as [|a b l m [Hf Hi] _ IH]; intros n Hn; inversion Hn as [|b' c m' n' [Hf' Hi'] Hn']; subst;
+    constructor; [|apply IH; exact Hn'].
+  split; [congruence|]. intros i. rewrite Hi. apply Hi'.
+Qed.
+
+Lemma hequiv_fst : forall l m, Forall2 hequiv l m -> map fst l = map fst m.
+Proof. intros l m H. induction H as [|a b l m [Hf _] _ IH]; simpl; [reflexivity|]. rewrite Hf, IH. reflexivity. Qed.
+
+Lemma hequiv_entry : forall l m rid, Forall2 hequiv l m -> forall i, In i (entry l rid) <-> In i (entry m rid).
+Proof.
+  intros l m rid H. induction H as [|a b l m [Hf Hi] _ IH]; intros i; simpl; [tauto|].
+  rewrite Hf. destruct (Z.eqb (fst b) rid); [apply Hi|apply IH].
+Qed.
+
+Lemma pass_fst : forall kinds prev src s s' hs, pass kinds prev src s = (s', hs) -> map fst hs = map fst src.
+Proof.
+  intros kinds prev src s s' hs H. destruct (pass_spec _ _ _ _ _ _ H) as [a [_ [Hf _]]].
+  eapply Forall2_hrel_fst. exact Hf.
+Qed.
+
+Lemma auto_remove_all : forall s hs,
+  forallb nonempty_group (with_groups s hs) = true -> auto_remove (with_groups s hs) = s.
+Proof.
+  intros s hs H. unfold auto_remove. rewrite (forallb_filter_id _ _ H). unfold with_groups.
+  rewrite map_map. simpl. clear H. induction s as [|r t IH]; simpl; [reflexivity|]. rewrite IH. destruct r; reflexivity.
+Qed.
+
+(* validity of an entry depends only on the ids it contains *)
+Lemma clean_valid_equiv : forall kinds d prev' href src s,
+  Forall2 hequiv prev' href -> clean_valid kinds [] href src s -> clean_valid kinds d prev' src s.
+Proof.
+  intros kinds d prev' href src s Hq Hv r Hr _. specialize (Hv r Hr eq_refl).
+  unfold hspec in *. destruct (row_keys kinds (snd r)) as [ks|]; [|reflexivity].
+  destruct Hv as [H1 H2]. pose proof (hequiv_entry _ _ (fst r) Hq) as He. split.
+  - intros k Hk. destruct (H1 k Hk) as [i [Hi Hf]]. exists i. split; [apply He; exact Hi|exact Hf].
+  - intros i Hi. apply He in Hi. exact (H2 i Hi).
+Qed.
+
+(* once everything is up to date, further rounds (whatever they re-evaluate) change nothing *)
+Lemma trace_rounds_stable : forall rest kinds src s2 href prev',
+  NoDup (map fst src) -> map fst href = map fst src -> Forall2 hequiv prev' href ->
+  clean_valid kinds [] href src s2 ->
+  forallb nonempty_group (with_groups s2 href) = true ->
+  rest <> [] ->
+  settle_trace kinds prev' src s2 rest = Some (with_groups s2 href).
+Proof.
+  induction rest as [|d rest IH]; intros kinds src s2 href prev' Hnd Hal Hq Hv Hne Hrest; [congruence|].
+  cbn [settle_trace].
+  pose proof (clean_valid_equiv kinds d _ _ _ _ Hq Hv) as Hvd.
+  pose proof (clean_valid_equiv kinds [] _ _ _ _ Hq Hv) as Hv0.
+  destruct (pass_d_full _ _ _ _ _ Hvd) as [s' [hsd [hs' [Hd [Hp Hqd]]]]].
+  destruct (pass_d_full _ _ _ _ _ Hv0) as [s0 [hsd0 [hs0 [Hd0 [Hp0 Hq0]]]]].
+  rewrite pass_d_nothing_dirty in Hd0. inversion Hd0; subst s0 hsd0; clear Hd0.
+  rewrite Hp in Hp0. inversion Hp0; subst s' hs0; clear Hp0.
+  assert (Hself : map (fun r => (fst r, entry prev' (fst r))) src = prev').
+  { assert (Hal' : map fst prev' = map fst src) by (rewrite (hequiv_fst _ _ Hq); exact Hal).
+    transitivity (map (fun i => (i, entry prev' i)) (map fst prev')).
+    - rewrite Hal', map_map. reflexivity.
+    - apply entries_self. rewrite Hal'. exact Hnd. }
+  rewrite Hself in Hq0.
+  assert (Hfin : Forall2 hequiv hsd href).
+  { eapply hequiv_trans; [exact Hqd|]. eapply hequiv_trans; [apply hequiv_sym; exact Hq0|exact Hq]. }
+  rewrite Hd. rewrite (with_groups_equiv _ _ _ Hfin). rewrite Hne.
+  destruct rest as [|d2 rest']; [reflexivity|].
+  rewrite (auto_remove_all _ _ Hne).
+  apply IH; try assumption. discriminate.
+Qed.
+
+Theorem settle_trace_full : forall kinds prev src summ d1 rest,
+  NoDup (map fst src) -> clean_valid kinds d1 prev src summ -> rest <> [] ->
+  settle_trace kinds prev src summ (d1 :: rest) = settle_loop 2 kinds prev src summ.
+Proof.
+  intros kinds prev src summ d1 rest Hnd Hv Hrest.
+  destruct (pass_d_full _ _ _ _ _ Hv) as [s1 [hsd [hs [Hd [Hp Hq]]]]].
+  rewrite (settle_loop_closed _ _ _ _ _ _ Hnd Hp 0).
+  cbn [settle_trace]. rewrite Hd. rewrite (with_groups_equiv _ _ _ Hq).
+  destruct rest as [|d2 rest']; [congruence|].
+  rewrite auto_remove_filter. rewrite filter_with_groups.
+  apply trace_rounds_stable; try assumption.
+  - eapply pass_fst. exact Hp.
+  - eapply round_fixpoint; eassumption.
+  - rewrite <- filter_with_groups. apply forallb_filter_self.
+Qed.
+
+(* ------------------------------------------------------------------ rows stay in ascending id order, so the row a
+   key finds is the matching row with the lowest id (RecordSet.get_one of the sorted lookup result) *)
+
+From Coq Require Import Sorting.Sorted.
+
+Definition asc (s : list mrow) : Prop := StronglySorted Z.lt (map fst s).
+
+Lemma asc_app : forall s a, asc s -> asc a -> (forall r, In r a -> max_id s < fst r) -> asc (s ++ a).
+Proof.
+  unfold asc. induction s as [|x t IH]; intros a Hs Ha Hgt; simpl; [exact Ha|].
+  inversion Hs as [|y l Hl Hall]; subst. constructor.
+  - apply IH; [exact Hl|exact Ha|]. intros r Hr. specialize (Hgt r Hr). unfold max_id in *. simpl in Hgt. lia.
+  - rewrite map_app. apply Forall_app. split; [exact Hall|].
+    apply Forall_forall. intros z Hz. apply in_map_iff in Hz. destruct Hz as [r [<- Hr]].
+    specialize (Hgt r Hr). unfold max_id in Hgt. simpl in Hgt. lia.
+Qed.
+
+Lemma number_from_asc : forall ks n, asc (number_from n ks).
+Proof.
+  unfold asc. induction ks as [|k t IH]; intros n; simpl; constructor; [apply IH|].
+  apply Forall_forall. intros z Hz. apply in_map_iff in Hz. destruct Hz as [r [<- Hr]].
+  apply number_from_fst in Hr. lia.
+Qed.
+
+Lemma helper_list_asc : forall kinds stale s cells s1 h,
+  helper_list kinds stale s cells = (s1, h) -> asc s -> asc s1.
+Proof.
+  intros kinds stale s cells s1 h H Hs. unfold helper_list in H.
+  destruct (row_keys kinds cells) as [ks|]; inversion H; subst; [|exact Hs].
+  apply asc_app; [exact Hs|apply number_from_asc|].
+  intros r Hr. apply number_from_fst in Hr. unfold next_id in Hr. lia.
+Qed.
+
+Lemma pass_asc : forall kinds prev src s s' hs, pass kinds prev src s = (s', hs) -> asc s -> asc s'.
+Proof.
+  intros kinds prev src. induction src as [|r t IH]; intros s s' hs H Hs; simpl in H.
+  - inversion H; subst. exact Hs.
+  - destruct (helper kinds (entry prev (fst r)) s (snd r)) as [s1 h] eqn:Eh.
+    destruct (pass kinds prev t s1) as [s2 hs'] eqn:Ep. inversion H; subst.
+    rewrite helper_is_list in Eh. eapply IH; [exact Ep|]. eapply helper_list_asc; eassumption.
+Qed.
+
+Lemma asc_filter : forall (p : mrow -> bool) s, asc s -> asc (filter p s).
+Proof.
+  unfold asc. intros p s. induction s as [|x t IH]; intros H; simpl; [constructor|].
+  inversion H as [|y l Hl Hall]; subst. destruct (p x); simpl; [|apply IH; exact Hl].
+  constructor; [apply IH; exact Hl|]. apply Forall_forall. intros z Hz.
+  apply in_map_iff in Hz. destruct Hz as [r [<- Hr]]. apply filter_In in Hr.
+  rewrite Forall_forall in Hall. apply Hall. apply in_map. tauto.
+Qed.
+
+Lemma first_match_lowest : forall s k i, asc s -> first_match s k = Some i ->
+  forall j, In (j, k) s -> i <= j.
+Proof.
+  unfold asc. induction s as [|r t IH]; intros k i Hs H j Hj; simpl in *; [contradiction|].
+  inversion Hs as [|y l Hl Hall]; subst.
+  destruct (key_eqb (snd r) k) eqn:E.
+  - inversion H; subst. destruct Hj as [->|Hj]; [simpl; lia|].
+    rewrite Forall_forall in Hall. assert (fst r < j); [|lia].
+    apply Hall. apply in_map_iff. exists (j, k). split; [reflexivity|exact Hj].
+  - destruct Hj as [->|Hj]; [simpl in E; rewrite key_eqb_refl in E; discriminate|].
+    eapply IH; eassumption.
+Qed.
+
+(* ------------------------------------------------------------------ termination, in terms of the loop *)
+
+Lemma map_fst_with_groups : forall s hs, map fst (with_groups s hs) = s.
+Proof.
+  intros s hs. unfold with_groups. rewrite map_map. simpl.
+  induction s as [|r t IH]; simpl; [reflexivity|]. rewrite IH. destruct r; reflexivity.
+Qed.
+
+Theorem settle_loop_terminates : forall kinds prev src summ,
+  NoDup (map fst src) ->
+  exists out, (forall fuel, (2 <= fuel)%nat -> settle_loop fuel kinds prev src summ = Some out) /\
+              forallb nonempty_group out = true.
+Proof.
+  intros kinds prev src summ Hnd. destruct (pass kinds prev src summ) as [s1 hs] eqn:Hp.
+  exists (filter nonempty_group (with_groups s1 hs)). split.
+  - intros fuel Hf. destruct fuel as [|[|f]]; try lia. eapply settle_loop_closed; eassumption.
+  - apply forallb_filter_self.
+Qed.
+
+(* the settled table is stable: one more round (re-evaluating everything) changes nothing *)
+Theorem settle_stable : forall kinds prev src summ out fuel,
+  NoDup (map fst src) -> (2 <= fuel)%nat -> settle_loop fuel kinds prev src summ = Some out ->
+  exists prev', settle_loop 1 kinds prev' src (map fst out) = Some out.
+Proof.
+  intros kinds prev src summ out fuel Hnd Hf H.
+  destruct (pass kinds prev src summ) as [s1 hs] eqn:Hp.
+  destruct fuel as [|[|f]]; try lia. rewrite (settle_loop_closed _ _ _ _ _ _ Hnd Hp f) in H.
+  inversion H; subst out; clear H.
+  destruct (second_round _ _ _ _ _ _ Hnd Hp) as [hs2 [Hp2 Hq]].
+  exists hs. rewrite filter_with_groups.
+  assert (Hm : map fst (with_groups (filter (fun r => keepb hs (fst r)) s1) hs)
+               = filter (fun r => keepb hs (fst r)) s1).
+  { apply map_fst_with_groups. }
+  rewrite Hm. cbn [settle_loop]. rewrite Hp2. rewrite <- (with_groups_equiv _ _ _ Hq).
+  rewrite <- filter_with_groups. rewrite forallb_filter_self. reflexivity.
+Qed.
+
+(* ------------------------------------------------------------------ whenever the loop ends *)
+
+Lemma settle_loop_nonempty : forall fuel kinds prev src summ out,
+  settle_loop fuel kinds prev src summ = Some out -> forallb nonempty_group out = true.
+Proof.
+  induction fuel as [|f IH]; intros kinds prev src summ out H; simpl in H; [discriminate|].
+  destruct (pass kinds prev src summ) as [s1 hs].
+  destruct (forallb nonempty_group (with_groups s1 hs)) eqn:E.
+  - inversion H; subst. exact E.
+  - eapply IH. exact H.
+Qed.
+
+Lemma settle_loop_some : forall fuel kinds prev src summ out s1 hs,
+  NoDup (map fst src) -> pass kinds prev src summ = (s1, hs) ->
+  settle_loop fuel kinds prev src summ = Some out ->
+  out = filter nonempty_group (with_groups s1 hs).
+Proof.
+  intros fuel kinds prev src summ out s1 hs Hnd Hp H.
+  destruct fuel as [|[|f]].
+  - discriminate.
+  - cbn [settle_loop] in H. rewrite Hp in H.
+    destruct (forallb nonempty_group (with_groups s1 hs)) eqn:E; [|discriminate].
+    inversion H; subst. symmetry. apply forallb_filter_id. exact E.
+  - rewrite (settle_loop_closed _ _ _ _ _ _ Hnd Hp f) in H. inversion H. reflexivity.
+Qed.
+
+Lemma rows_with_key_sorted : forall kinds src k,
+  StronglySorted Z.lt (map fst src) -> StronglySorted Z.lt (rows_with_key kinds src k).
+Proof.
+  intros kinds src k. unfold rows_with_key. induction src as [|r t IH]; intros H; simpl; [constructor|].
+  inversion H as [|y l Hl Hall]; subst.
+  destruct (mem_key k (keys_of kinds (snd r))); simpl; [|apply IH; exact Hl].
+  constructor; [apply IH; exact Hl|]. apply Forall_forall. intros z Hz.
+  apply in_map_iff in Hz. destruct Hz as [r' [<- Hr']]. apply filter_In in Hr'.
+  rewrite Forall_forall in Hall. apply Hall. apply in_map. tauto.
+Qed.
+
+(* rows of the settled table are old rows (same id, same key) or rows with new, larger ids *)
+Lemma settled_rows_origin : forall fuel kinds prev src summ out i k g,
+  NoDup (map fst src) -> settle_loop fuel kinds prev src summ = Some out -> In (i, k, g) out ->
+  In (i, k) summ \/ max_id summ < i.
+Proof.
+  intros fuel kinds prev src summ out i k g Hnd H Hin.
+  destruct (pass kinds prev src summ) as [s1 hs] eqn:Hp.
+  rewrite (settle_loop_some _ _ _ _ _ _ _ _ Hnd Hp H) in Hin.
+  apply filter_In in Hin. destruct Hin as [Hin _]. unfold with_groups in Hin.
+  apply in_map_iff in Hin. destruct Hin as [[i' k'] [Heq Hin]]. simpl in Heq. inversion Heq; subst.
+  destruct (pass_spec _ _ _ _ _ _ Hp) as [added [-> [_ [Hid _]]]].
+  apply in_app_or in Hin. destruct Hin as [Hin|Hin]; [left; exact Hin|right; exact (Hid _ Hin)].
+Qed.
+
+Lemma record_grouped : forall fuel kinds prev src summ out r,
+  NoDup (map fst src) -> NoDup (map fst summ) -> no_raise kinds src ->
+  settle_loop fuel kinds prev src summ = Some out -> In r src -> keys_of kinds (snd r) <> [] ->
+  exists row, In row out /\ In (fst r) (ogroup row) /\ In (okey row) (keys_of kinds (snd r)).
+Proof.
+  intros fuel kinds prev src summ out r Hnd Hids Hgood H Hr Hk.
+  destruct (pass kinds prev src summ) as [s1 hs] eqn:Hp.
+  rewrite (settle_loop_some _ _ _ _ _ _ _ _ Hnd Hp H).
+  destruct (keys_of kinds (snd r)) as [|k ks] eqn:Ek; [congruence|].
+  assert (Hin : In k (keys_of kinds (snd r))) by (rewrite Ek; left; reflexivity).
+  destruct (ex_key_entry _ _ _ _ _ _ Hp r k Hr Hin) as [i [h [Hfm [Hh Hi]]]].
+  exists (i, k, group_of hs i). split; [|split].
+  - eapply ex_out_In. split; [apply fm_some_in; exact Hfm|]. split; [|reflexivity].
+    eapply keepb_true; eassumption.
+  - unfold ogroup. simpl. apply group_of_In. exists h. split; assumption.
+  - unfold okey. simpl. left. reflexivity.
+Qed.
+
+(* ------------------------------------------------------------------ the keys of a record, as the property states them *)
+
+Lemma dedup_nil : forall l, dedup l = [] -> l = [].
+Proof.
+  intros l H. destruct l as [|a t]; [reflexivity|]. exfalso.
+  assert (Hin : In a (dedup (a :: t))) by (apply dedup_In; left; reflexivity).
+  rewrite H in Hin. exact Hin.
+Qed.
+
+Lemma lookup_values_spec : forall kinds cells,
+  length cells = length kinds ->
+  match lookup_values kinds cells with
+  | LvOk vals false =>
+      Forall2 (fun v kc => forall a, In a v <-> elem_of (fst kc) (snd kc) a) vals (combine kinds cells)
+  | LvReturnEmpty => forall k, ~ key_of_cells kinds cells k
+  | _ => True
+  end.
+Proof.
+  induction kinds as [|kd ks IH]; intros cells Hlen; simpl.
+  - constructor.
+  - destruct cells as [|c cs]; [discriminate|]. simpl in Hlen. injection Hlen as Hlen. specialize (IH cs Hlen).
+    assert (Hrest : forall v, (forall a, In a v <-> elem_of kd c a) ->
+      match lv_cons v false (lookup_values ks cs) with
+      | LvOk vals false =>
+          Forall2 (fun v kc => forall a, In a v <-> elem_of (fst kc) (snd kc) a) vals ((kd, c) :: combine ks cs)
+      | LvReturnEmpty => forall k, ~ key_of_cells (kd :: ks) (c :: cs) k
+      | _ => True
+      end).
+    { intros v Hv. unfold lv_cons. destruct (lookup_values ks cs) as [| |vals u]; [| exact I |].
+      - intros k Hk. unfold key_of_cells in Hk. simpl in Hk. inversion Hk; subst. eapply IH. eassumption.
+      - simpl. destruct u; [exact I|]. constructor; [exact Hv|exact IH]. }
+    assert (Hbad : (forall a, ~ elem_of kd c a) -> forall k, ~ key_of_cells (kd :: ks) (c :: cs) k).
+    { intros Hno k Hk. unfold key_of_cells in Hk. simpl in Hk. inversion Hk; subst. eapply Hno. eassumption. }
+    destruct c as [a|l| |]; destruct kd; simpl; try exact I.
+    + apply Hrest. intros x. simpl. split; [intros [E|[]]; symmetry; exact E|intros E; left; symmetry; exact E].
+    + apply Hbad. intros x Hx. exact Hx.
+    + apply Hbad. intros x Hx. exact Hx.
+    + unfold lv_cons. destruct (lookup_values ks cs) as [| |vals u]; [|exact I|exact I].
+      intros k Hk. unfold key_of_cells in Hk. simpl in Hk. inversion Hk; subst. simpl in *. contradiction.
+    + apply Hrest. intros x. simpl. destruct (dedup l) eqn:E.
+      * apply dedup_nil in E. subst l. simpl. split; [intros [<-|[]]; left; split; reflexivity|].
+        intros [[_ ->]|[]]. left. reflexivity.
+      * rewrite <- E, dedup_In. split; [intros H; right; exact H|].
+        intros [[-> _]|H]; [discriminate|exact H].
+    + apply Hrest. intros x. simpl. destruct (dedup l) eqn:E.
+      * apply dedup_nil in E. subst l. simpl. split; [intros [<-|[]]; left; split; reflexivity|].
+        intros [[_ ->]|[]]. left. reflexivity.
+      * rewrite <- E, dedup_In. split; [intros H; right; exact H|].
+        intros [[-> _]|H]; [discriminate|exact H].
+    + unfold lv_cons. destruct (lookup_values ks cs) as [| |vals u]; [|exact I|exact I].
+      intros k Hk. unfold key_of_cells in Hk. simpl in Hk. inversion Hk; subst. simpl in *. contradiction.
+    + apply Hbad. intros x Hx. exact Hx.
+    + apply Hbad. intros x Hx. exact Hx.
+Qed.
+
+Lemma Forall2_In_pointwise : forall (k : key) (vals : list (list atom)) (kcs : list (kind * cell)),
+  Forall2 (fun v kc => forall a, In a v <-> elem_of (fst kc) (snd kc) a) vals kcs ->
+  (Forall2 (fun a v => In a v) k vals <-> Forall2 (fun a kc => elem_of (fst kc) (snd kc) a) k kcs).
+Proof.
+  intros k vals kcs H. revert k. induction H as [|v kc vals kcs Hv _ IH]; intros k.
+  - split; intros Hk; inversion Hk; constructor.
+  - split; intros Hk; inversion Hk; subst; constructor; try (apply Hv; assumption); apply IH; assumption.
+Qed.
+
+Theorem row_keys_spec : forall kinds cells ks,
+  length cells = length kinds -> row_keys kinds cells = Some ks ->
+  NoDup ks /\ forall k, In k ks <-> key_of_cells kinds cells k.
+Proof.
+  intros kinds cells ks Hlen H. split; [eapply row_keys_NoDup; exact H|].
+  pose proof (lookup_values_spec kinds cells Hlen) as L. unfold row_keys in H.
+  destruct (lookup_values kinds cells) as [| |vals u].
+  - inversion H; subst. intros k. split; [intros []|intros Hk; exact (L k Hk)].
+  - discriminate.
+  - destruct u; [destruct vals; discriminate|]. inversion H; subst. intros k.
+    rewrite sort_keys_In, product_In. unfold key_of_cells. apply Forall2_In_pointwise. exact L.
+Qed.
+
+Lemma cells_ok_lookup_values : forall kinds cells, cells_ok kinds cells ->
+  match lookup_values kinds cells with LvRaise => False | LvOk _ true => False | _ => True end.
+Proof.
+  intros kinds cells H. induction H as [|kd c ks cs [Hne Hsc] _ IH]; simpl; [exact I|].
+  assert (Hc : forall v, match lv_cons v false (lookup_values ks cs) with
+                         | LvRaise => False | LvOk _ true => False | _ => True end).
+  { intros v. unfold lv_cons. destruct (lookup_values ks cs) as [| |vals u]; [exact I|contradiction|].
+    simpl. destruct u; [contradiction|exact I]. }
+  destruct c as [a|l| |]; [| | |congruence]; destruct kd; try exact I; try apply Hc;
+    destruct (Hsc eq_refl) as [a' Ha']; discriminate.
+Qed.
+
+Theorem cells_ok_no_raise : forall kinds src,
+  (forall r, In r src -> cells_ok kinds (snd r)) -> no_raise kinds src.
+Proof.
+  intros kinds src H r Hr. specialize (H r Hr). apply cells_ok_lookup_values in H. unfold row_keys.
+  destruct (lookup_values kinds (snd r)) as [| |vals u]; [discriminate|contradiction|].
+  destruct u; [contradiction|discriminate].
+Qed.
